@@ -23,6 +23,7 @@ def run(prog, report, tier):
     panels.check_sym(prog, report)
     panels.check_integrate(prog, report)
     panels.check_exact_splitter(prog, report)
+    panels.check_asserts(prog, report)
     hier.check_virtual_children(prog, report)
     run_tasks(report, [(kernels.cert_K2_fourterm, (prog.repo, )),
                        (kernels.cert_fourterm_exact, (prog.repo, ))])
